@@ -1824,12 +1824,29 @@ func handlerTags(c *core.Ctx, r *Roles, fn *ssa.Function) []string {
 			continue
 		}
 		// the step of a referrers update that stores the response, split out of the helper
+		// (directly, or through at most two more steps of the same package)
 		isCallee := false
-		an.Calls(h, func(call ssa.CallInstruction) {
-			if call.Common().StaticCallee() == top {
-				isCallee = true
+		var walkCallees func(f *ssa.Function, depth int, seen map[*ssa.Function]bool)
+		walkCallees = func(f *ssa.Function, depth int, seen map[*ssa.Function]bool) {
+			if seen[f] || depth > 3 || isCallee {
+				return
 			}
-		})
+			seen[f] = true
+			an.Calls(f, func(call ssa.CallInstruction) {
+				g := call.Common().StaticCallee()
+				if g == nil {
+					return
+				}
+				if g == top {
+					isCallee = true
+					return
+				}
+				if g.Pkg == h.Pkg && len(g.Blocks) > 0 && g.Parent() == nil {
+					walkCallees(g, depth+1, seen)
+				}
+			})
+		}
+		walkCallees(h, 1, map[*ssa.Function]bool{})
 		storesBlob := false
 		if isCallee {
 			an.Calls(top, func(call ssa.CallInstruction) {
